@@ -303,7 +303,10 @@ func (lx *lexer) number() {
 			}
 			j++
 		}
-		if j < len(src) && src[j] == '\'' && lx.isBaseAt(j) {
+		// "#1 'b0": after a delay '#', a number separated by white space from a
+		// based literal is the delay value followed by an unsized literal.
+		afterHash := len(lx.toks) > 0 && lx.toks[len(lx.toks)-1].kind == tOp && lx.toks[len(lx.toks)-1].text == "#" && j > lx.pos
+		if j < len(src) && src[j] == '\'' && lx.isBaseAt(j) && !afterHash {
 			t.numSize = dec
 			lx.pos = j
 			lx.line += nl
